@@ -10,11 +10,11 @@ def run(v, tier):
     v.assumptions += ['interpreter stacks: basic, stateful, counting, serializing, pretty, memo(serializing), instopt(stateful), instopt(basic), memo(instopt(serializing))']
     cases = []
     # library lemmas under every stack (cheap entries; the pretty printer is quadratic)
-    reqs, _ = lem.applications(rng, 2 if quick else 5, max_events=1000 if quick else 4000, interps=True, traces=())
+    reqs, _ = lem.applications(rng, 2 if quick else 10, max_events=1000 if quick else 4000, interps=True, traces=())
     res = lem.run_applications(reqs)
     cases += lem.interp_cases(reqs, res)
     # DSL edge cases named by the property
-    mods = exprs.edge_modules(rng, 12 if quick else 120) + exprs.graph_modules(rng)
+    mods = exprs.edge_modules(rng, 12 if quick else 500) + exprs.graph_modules(rng)
     ereqs = [{'cmd': 'expr', 'module': m, 'interps': True, 'traces': []} for m in mods]
     eres = lem.run_applications(ereqs)
     nb = 0
